@@ -1,4 +1,14 @@
 //! C37 probe: events replay to the indexed state.
+//!
+//! After every update (only when inscriptions or runes are indexed):
+//!   ix.oracle.replay <cumulative implementation events of this chain, '|'-separated>
+//!      ## <chain skeleton: one row per block `<height> <ntx> {<txid> <nin> {<prev-txid>:<vout>} <opreturn flags|->}`>
+//!      ## <implementation `ins` rows> ## <implementation `runes` rows> ## <UnboundInscriptions statistic>
+//!   → true
+//! The Lean driver parses the events, runs `Ord.Index.replay` (the function the C37 theorems
+//! are about) on them with the chain skeleton, and compares the result with the projection of
+//! the implementation's own dump rows (seq2satpoint, entry charms/id, rune mints/burned,
+//! balances, unbound counter).
 use {
   common::{Dist, Rng, Streams},
   ixlib::Ctx,
@@ -9,6 +19,88 @@ use {
 pub struct Replay {
   pub case: Option<u64>,
   pub events: Vec<String>,
+  burned_seen: bool,
 }
 
-pub fn probe(_st: &mut Replay, _ctx: &Ctx, _rng: &mut Rng, _out: &mut Streams, _dist: &mut Dist) {}
+fn field<'a>(ev: &'a str, key: &str) -> Option<&'a str> {
+  ev.split(' ').find_map(|t| t.strip_prefix(key))
+}
+
+pub fn probe(st: &mut Replay, ctx: &Ctx, _rng: &mut Rng, out: &mut Streams, dist: &mut Dist) {
+  if st.case != Some(ctx.case) {
+    *st = Replay { case: Some(ctx.case), events: Vec::new(), burned_seen: false };
+  }
+  if !(ctx.flags.ins || ctx.flags.runes) {
+    return;
+  }
+  // this update's events
+  if ctx.events != "-" {
+    for ev in ctx.events.split('|') {
+      let kind = ev.split(' ').next().unwrap();
+      dist.hit(&format!("c37_event_{kind}"));
+      match kind {
+        "InscriptionCreated" => {
+          if field(ev, "loc=") == Some("-") {
+            dist.hit("c37_unbound_creation");
+          }
+          if field(ev, "parents=") != Some("-") {
+            dist.hit("c37_creation_with_parents");
+          }
+        }
+        "InscriptionTransferred" => {
+          // new=<txid>:<vout>:<offset>: is that output an OP_RETURN?
+          let new = field(ev, "new=").unwrap();
+          let mut it = new.split(':');
+          let (txid, vout) = (it.next().unwrap(), it.next().unwrap().parse::<usize>().unwrap());
+          if let Ok(txid) = txid.parse::<bitcoin::Txid>() {
+            match ctx.g.txs.get(&txid) {
+              Some((tx, _)) => {
+                if tx.output.get(vout).map(|o| o.script_pubkey.is_op_return()).unwrap_or(false) {
+                  dist.hit("c37_transfer_to_op_return");
+                }
+              }
+              None => dist.hit("c37_transfer_to_special_outpoint"),
+            }
+          }
+        }
+        "RuneBurned" => {
+          if field(ev, "amount=") == Some("0") {
+            dist.hit("c37_burned_zero_amount");
+          }
+        }
+        _ => {}
+      }
+      st.events.push(ev.to_string());
+    }
+  }
+  if !st.burned_seen && ctx.secs["runes"].split('|').any(|r| r.starts_with("rune ") && !r.contains(" burned=0 ")) {
+    st.burned_seen = true;
+    dist.hit("c37_chain_with_burned_total");
+  }
+  // chain skeleton
+  let mut blocks = Vec::new();
+  for h in 0..=ctx.node.height() {
+    let b = ctx.node.block_at(h);
+    let mut row = format!("{h} {}", b.txdata.len());
+    for tx in &b.txdata {
+      row.push_str(&format!(" {} {}", tx.compute_txid(), tx.input.len()));
+      for i in &tx.input {
+        row.push_str(&format!(" {}:{}", i.previous_output.txid, i.previous_output.vout));
+      }
+      let flags: String = tx.output.iter().map(|o| if o.script_pubkey.is_op_return() { '1' } else { '0' }).collect();
+      row.push_str(&format!(" {}", if flags.is_empty() { "-".to_string() } else { flags }));
+    }
+    blocks.push(row);
+  }
+  let unbound = ctx.secs["stats"]
+    .split('|')
+    .find_map(|r| r.strip_prefix("statistic UnboundInscriptions "))
+    .unwrap_or("0")
+    .to_string();
+  let evs = if st.events.is_empty() { "-".to_string() } else { st.events.join("|") };
+  let ins = if ctx.flags.ins { ctx.secs["ins"].clone() } else { "-".to_string() };
+  let runes = if ctx.flags.runes { ctx.secs["runes"].clone() } else { "-".to_string() };
+  out.emit(&format!("ix.oracle.replay {evs} ## {} ## {ins} ## {runes} ## {unbound}", blocks.join("|")), "true");
+  dist.hit("c37_oracle_replay");
+  dist.add("c37_events_replayed", st.events.len() as u64);
+}
